@@ -36,6 +36,31 @@ CHECKS = {
    technique="metamorphic property-based testing: pairs of real runs related by clause permutation, call routing through clones, twin mocks, generic instantiation pairs",
    text="For generated scenarios of the C01-C04 spaces the transformed run (clauses permuted across methods, calls routed through clones, a twin mock interleaved) must produce identical per-call outcomes and an identical multiset of verification lines; two instantiations of a generic trait and of a generic method with overlapping patterns are checked against the model as distinct methods.",
    note="no model involved for the three relations (implementation compared with itself under a transformation that must be behaviour-preserving); DynClause hook assembles clause lists"),
+
+ "C08": dict(engine="E1 + real threads (harness/rt)", cat="fault_enumeration", ref="§4 C08",
+   technique="fault-injecting property-based testing: generated histories with every reachable mock-induced error kind at any position, on clones, on other threads (caught or propagated to join), concurrent bursts; invariant over the history + reference model for the negative controls",
+   text="Every error kind reachable through the public API (no mock implementation, no matcher function, no matching patterns, no output, three call-order errors, value returned twice, explicit panic, cannot unmock, no default impl) is injected at generated positions of generated histories, through the original or clones, on the creator thread or spawned threads with the panic swallowed or propagated; then verification (drop / verify() / report()) must fail and its text must contain every captured error text (multiset). Panicking answer functions and matchers are negative controls: the verdict must then equal the model's count-based verdict.",
+   note=DYN + "; std build only (the documented no_std behaviour is not run)"),
+ "C09": dict(engine="lifecycle state machine in a crash-isolated worker (harness/rt)", cat="exploration", ref="§4 C09",
+   technique="stateful property-based testing: generated lifecycle event sequences vs a lifecycle state-machine model, executed in a crash-isolated worker process, sequence shrinking",
+   text="Sequences of up to 16 lifecycle events (clone of original/clone, drop, call, drop or call on another thread, verify(), report(), no_verify_in_drop(), delegated call creating the helper clone, make_ref holding a clone, caught mock-induced panic) over up to 6 instances; each step's outcome (silent, panic class, exit code) is compared with the model, which also counts that the original verifies at most once. A double panic aborts only the worker and is attributed to its sequence.",
+   note="panic classes are recognised by the documented phrases (unknown wording is compared as panic/no panic only); report() on a clone is not generated"),
+ "C10": dict(engine="E3 controlled scheduler (harness/rt/src/sched.rs)", cat="exploration", ref="§4 C10",
+   technique="schedule enumeration and schedule fuzzing of the real code: a token-passing scheduler driven by yield hooks at every atomic operation and lock acquisition; exhaustive depth-first enumeration for small thread configurations, proptest-generated choice sequences for larger ones, 16-thread stress; oracle = multiset of responses equals positions 1..N of the sequential reference model",
+   text="The real runtime runs on real OS threads, one at a time, the next thread being chosen at every yield point by a schedule (a Vec<u8>, which is also the replay file). All schedules of (threads x calls) in {(2,1),(2,2),(3,1),(2,3)} (thorough: also (3,2),(4,1)) are enumerated for an unordered response chain, an ordered sequence (as many slots as calls, and one fewer) and both mixed; larger configurations are sampled; a 16-thread unsynchronised stress run repeats the oracle.",
+   note="yield points exist only at unimock's own atomics and lock acquisitions (cfg unimock_verif); sequentially consistent interleavings only; std::sync::Mutex / Arc internals are trusted"),
+ "C11": dict(engine="E4 fault table: worker thread + fresh child process per cell (harness/rt)", cat="fault_enumeration", ref="§4 C11",
+   technique="fault enumeration: panic origin x instance topology x expectation state, every cell run on a thread of a crash-isolated worker and as the main thread of a fresh child process; oracle = exit status 101 (not SIGABRT), exactly one panic report, first message is the origin's",
+   text="17 panic origins (test body before/between/after calls, matcher, answer, unmock function, default body, by-value default body, argument Debug, return-value Clone, 7 mock-induced kinds) x 11 instance topologies (original only, clone dropped before/after, clone alive on another thread, Rc/Arc/Box, foreign thread, helper clone alive, value chain holding a clone, call through a clone) x met/unmet x error recorded before: all 680 cells are executed both ways; the thread boundary / process must report exactly the original panic and must not abort.",
+   note="std feature, panic=unwind; usability after a caught user panic is decided by the C02/C08 histories (panicking answers and matchers followed by further calls)"),
+ "C12": dict(engine="E1 conservation check + E3 scheduler (harness/rt)", cat="exploration", ref="§4 C12",
+   technique="property-based testing with an instrumented (drop- and clone-counting) value type: conservation oracle over generated request histories; exhaustive schedule enumeration for threads racing for one single-use value",
+   text="Generated histories request 1-6 configured values (non-Clone tokens alone, in Option/Poll, as owned leaves of mixed tuples and as owned Err of Result<&T,E>; Clone tokens via single-use path, n_times, each_call) 0-4 times each through original and clones: the first request must deliver exactly the configured leaves, later ones must panic, stored values must stay undropped while the mock lives, repeat-use deliveries must be clones of the stored original, and after teardown every value ever constructed must have been dropped exactly once. All schedules of 2-3 threads competing for one single-use value are enumerated.",
+   note="the compile-time half (chains that must not type-check) is decided by the program-generation engine when present in the evidence (sub-check compile-fail); interleavings inside std::sync::Mutex are trusted"),
+ "C13": dict(engine="value-chain shadow model in a crash-isolated worker (harness/rt)", cat="exploration", ref="§4 C13",
+   technique="stateful property-based testing: generated lending sequences with a shadow list of (address, id, contents) and a drop registry; long-chain and multi-thread cases; crash-isolated worker with a small stack to expose recursive drops",
+   text="Phases of lending operations (make_ref of several types, answers using make_ref, returns()-configured borrows, borrows through the delegation helper, bursts) over original and clones, closed by make_mut / a make_mut-answered &mut return, then 2-8 threads lending through a shared &Unimock, then teardown: every reference held is re-read after every operation, addresses of make_ref values are pairwise distinct, nothing is dropped early, everything is dropped exactly once. Chains of 5k-51k values are dropped on a 256 KiB stack.",
+   note="references are held in safe Rust; concurrent interleavings inside once_cell are real-thread stress only (not scheduled)"),
 }
 
 NOT_YET = {
@@ -75,6 +100,10 @@ def main():
         "engines": [
             {"name": "E1", "path": "harness/rt", "serves_properties": ["C01", "C02", "C03", "C04", "C07", "C18"],
              "kind_free_text": "in-process interpreter from generated scenario data to real clauses (public builder API) + reference model; proptest generators with shrinking; replay files are scenarios"},
+            {"name": "E1-lifecycle/value-chain/faults", "path": "harness/rt/src/props/{c08,c09,c11,c12,c13}.rs", "serves_properties": ["C08", "C09", "C11", "C12", "C13"],
+             "kind_free_text": "stateful generators executed in crash-isolated worker processes (vcore::worker) or fresh child processes; lifecycle / shadow-list / conservation oracles"},
+            {"name": "E3", "path": "harness/rt/src/sched.rs", "serves_properties": ["C10", "C12", "C08"],
+             "kind_free_text": "token-passing scheduler over the yield hook; exhaustive DFS over schedules or proptest-generated schedules"},
         ],
         "checks": checks,
         "notes": "Property-based testing / fuzzing only. Exit codes: 0 held, 1 violation (VIOLATION line + replay file), 2 inconclusive (harness build problem, watchdog). Known findings: known_findings.json.",
